@@ -103,6 +103,15 @@ Proof. vm_compute. reflexivity. Qed.
 Example C33_ex_kyber_short_share : establish_share_slices X25519Kyber768Draft00 [1; 2; 3] = Err a_illegal_parameter.
 Proof. vm_compute. reflexivity. Qed.
 
+(* an empty certificate_list is refused with decode_error before certs[0] is touched, whether the Certificate message came off the
+   wire or out of a (perfectly well-formed) CompressedCertificate *)
+Theorem C33_cert_checks_no_panic : forall from_compressed ncerts p, cert_checks from_compressed ncerts <> Panic p.
+Proof. exact cert_checks_no_panic. Qed.
+Print Assumptions C33_cert_checks_no_panic.
+Theorem C33_empty_certificate_list_refused : forall from_compressed, cert_checks from_compressed 0 = Err a_decode_error.
+Proof. exact cert_checks_empty. Qed.
+Print Assumptions C33_empty_certificate_list_refused.
+
 (* the two uTLS message types are accepted only where they belong *)
 Theorem C33_ee_only_at_ee : forall rp cc, cdispatch rp cc T_encryptedExtensions = true -> rp = CRP_EncryptedExtensions.
 Proof. exact client_ee_only_at_ee. Qed.
